@@ -221,6 +221,86 @@ pub fn run(cmd: &str, args: &[&str]) -> String {
             if t.entries() > cap || present > t.entries() { bad.push(format!("count: present {} entries {} cap {}", present, t.entries(), cap)); }
             if bad.is_empty() { format!("ok present={} entries={}", present, t.entries()) } else { format!("BAD {}", bad[..bad.len().min(3)].join("; ")) }
         }
+        ("eval", [fen, plies]) => match state_of(fen) {
+            None => "badfen".into(),
+            Some(s) => {
+                let ev = weechess_engine::eval::Evaluator::default();
+                let mut out = Vec::new();
+                for p in plies.split(',') {
+                    let p: usize = p.parse().unwrap();
+                    let w: i32 = ev.evaluate(&s, Color::White, p).into();
+                    let b: i32 = ev.evaluate(&s, Color::Black, p).into();
+                    out.push(format!("{}/{}", w, b));
+                }
+                out.join(",")
+            }
+        },
+        ("estimate", [fen]) => match state_of(fen) {
+            None => "badfen".into(),
+            Some(s) => {
+                let ev = weechess_engine::eval::Evaluator::default();
+                let mut buf = Vec::new();
+                weechess_core::MoveGenerator::compute_psuedo_legal_moves_into(&s, &mut buf);
+                let mut l: Vec<String> = buf.iter().map(|m| { let e: i32 = ev.estimate(&s, m).into(); format!("{}:{}", m.as_raw(), e) }).collect();
+                l.sort();
+                l.join(",")
+            }
+        },
+        ("attacks", [fen]) => match state_of(fen) {
+            None => "badfen".into(),
+            Some(s) => {
+                let b = s.board();
+                let v: Vec<u64> = vec![
+                    b.colored_attacks(Color::White).into(), b.colored_attacks(Color::Black).into(),
+                    b.colored_pawn_attacks(Color::White).into(), b.colored_pawn_attacks(Color::Black).into(),
+                ];
+                format!("{},{},{},{},{},{},{}", v[0], v[1], v[2], v[3], b.is_check(Color::White) as u8, b.is_check(Color::Black) as u8, s.is_check() as u8)
+            }
+        },
+        ("attackops", [fen, ops]) => match state_of(fen) {
+            None => "badfen".into(),
+            Some(s) => {
+                // one Board object and a saved clone; queries and clones in the given order
+                let mut cur = s.board().clone();
+                let mut saved = s.board().clone();
+                let mut out: Vec<String> = Vec::new();
+                for op in ops.split(',') {
+                    match op {
+                        "aw" => { let x: u64 = cur.colored_attacks(Color::White).into(); out.push(x.to_string()) }
+                        "ab" => { let x: u64 = cur.colored_attacks(Color::Black).into(); out.push(x.to_string()) }
+                        "pw" => { let x: u64 = cur.colored_pawn_attacks(Color::White).into(); out.push(x.to_string()) }
+                        "pb" => { let x: u64 = cur.colored_pawn_attacks(Color::Black).into(); out.push(x.to_string()) }
+                        "cw" => out.push((cur.is_check(Color::White) as u8).to_string()),
+                        "cb" => out.push((cur.is_check(Color::Black) as u8).to_string()),
+                        "clone" => { saved = cur.clone(); }
+                        _ => { std::mem::swap(&mut cur, &mut saved); }
+                    }
+                }
+                out.join(",")
+            }
+        },
+        ("fensame", [fen]) => match state_of(&crate::unescape_pub(fen)) {
+            None => "err".into(),
+            Some(s) => {
+                // write, read back: same state, same FEN again, same moves, hash and evaluation
+                let w = fen_of(&s);
+                match state_of(&w) {
+                    None => format!("reread-failed {}", w),
+                    Some(s2) => {
+                        use rand::SeedableRng;
+                        let mut rng = rand_chacha::ChaCha8Rng::seed_from_u64(7);
+                        let h = weechess_core::ZobristHasher::with(&mut rng);
+                        let ev = weechess_engine::eval::Evaluator::default();
+                        let g1: Vec<u32> = weechess_core::MoveGenerator::compute_legal_moves(&s).moves().iter().map(|m| m.0.as_raw()).collect();
+                        let g2: Vec<u32> = weechess_core::MoveGenerator::compute_legal_moves(&s2).moves().iter().map(|m| m.0.as_raw()).collect();
+                        let has_king = |st: &State| st.board().piece_occupancy(PieceIndex::new(st.turn_to_move(), Piece::King)).any();
+                        let e_same = if has_king(&s) { ev.evaluate(&s, Color::White, 3) == ev.evaluate(&s2, Color::White, 3) } else { true };
+                        let ok = s == s2 && fen_of(&s2) == w && g1 == g2 && h.hash(&s) == h.hash(&s2) && e_same;
+                        format!("{} {}", if ok { "same" } else { "DIFFERENT" }, w)
+                    }
+                }
+            }
+        },
         ("hashstream", [seed]) => {
             use rand::RngCore;
             use rand::SeedableRng;
